@@ -445,13 +445,107 @@ fn registry_facts(input: &Value) -> Result<Value, String> {
   }))
 }
 
+/// `rename`: {canonical schema name: spelling used in the document}.  The document is rewritten (schema keys, `$ref`
+/// values, discriminator mapping targets as pointers or bare names) before it reaches the generator; the spellings are
+/// chosen by the check such that `to_rust_type_name(spelling) == canonical`, so everything read from the EMITTED code is
+/// in canonical names already; the registry facts (schema-level names) are mapped back here.
+fn rename_spec(v: &mut Value, map: &Map<String, Value>, in_mapping: bool) {
+  match v {
+    Value::Object(o) => {
+      if let Some(Value::Object(comps)) = o.get_mut("components") {
+        if let Some(Value::Object(schemas)) = comps.get_mut("schemas") {
+          let old = std::mem::take(schemas);
+          for (k, val) in old {
+            let nk = map.get(&k).and_then(Value::as_str).map_or(k.clone(), str::to_string);
+            schemas.insert(nk, val);
+          }
+        }
+      }
+      for (k, val) in o.iter_mut() {
+        if k == "$ref" || in_mapping {
+          if let Value::String(s) = val {
+            if let Some(name) = s.strip_prefix("#/components/schemas/") {
+              if let Some(n) = map.get(name).and_then(Value::as_str) {
+                *s = format!("#/components/schemas/{n}");
+              }
+            } else if in_mapping {
+              if let Some(n) = map.get(s.as_str()).and_then(Value::as_str) {
+                *s = n.to_string();
+              }
+            }
+          }
+        } else {
+          rename_spec(val, map, k == "mapping");
+        }
+      }
+    }
+    Value::Array(a) => a.iter_mut().for_each(|x| rename_spec(x, map, false)),
+    _ => {}
+  }
+}
+
+fn rename_back(v: &mut Value, back: &BTreeMap<String, String>) {
+  match v {
+    Value::String(s) => {
+      if let Some(c) = back.get(s.as_str()) {
+        *s = c.clone();
+      }
+    }
+    Value::Array(a) => a.iter_mut().for_each(|x| rename_back(x, back)),
+    Value::Object(o) => {
+      let old = std::mem::take(o);
+      for (k, mut val) in old {
+        rename_back(&mut val, back);
+        o.insert(back.get(&k).cloned().unwrap_or(k), val);
+      }
+    }
+    _ => {}
+  }
+}
+
 pub fn eval(op: &str, input: &mut Value) -> OpResult {
   match op {
     "disc.run" | "disc.code" | "disc.site" | "disc.sitecode" => {
-      let reg = match registry_facts(input) {
+      // the request is echoed to the model as it came: work on a copy
+      let mut local = input.clone();
+      let input = &mut local;
+      let mut back: BTreeMap<String, String> = BTreeMap::new();
+      if let Some(Value::Object(map)) = input.get("rename").cloned() {
+        for (c, o) in &map {
+          if let Some(o) = o.as_str() {
+            back.insert(o.to_string(), c.clone());
+          }
+        }
+        if let Some(spec) = input.get_mut("spec") {
+          rename_spec(spec, &map, false);
+        }
+      }
+      let mut reg = match registry_facts(input) {
         Ok(v) => v,
         Err(e) => return Ok(json!({"err": e})),
       };
+      if !back.is_empty() {
+        // tag VALUES and warnings are not names: only the name-carrying parts are mapped back
+        for k in ["parents", "reach"] {
+          rename_back(&mut reg[k], &back);
+        }
+        if let Some(eff) = reg["effective"].as_object_mut() {
+          let old = std::mem::take(eff);
+          for (k, mut rows) in old {
+            for row in rows.as_array_mut().into_iter().flatten() {
+              if let Some(n) = row.get_mut(1) {
+                rename_back(n, &back);
+              }
+            }
+            eff.insert(back.get(&k).cloned().unwrap_or(k), rows);
+          }
+        }
+        for row in reg["cache"].as_array_mut().into_iter().flatten() {
+          if let Some(n) = row.get_mut(0) {
+            rename_back(n, &back);
+          }
+        }
+      }
       let (files, stats) = match k_gen::generate(input) {
         Ok(x) => x,
         Err(e) => return Ok(json!({"err": e})),
